@@ -2,6 +2,7 @@ CONSTANTS
   MaxRows = 5
   MaxDepth = 1
   InitRowsA = {0, 1, 2, 3}
+  WithEmptyB = FALSE
 SPECIFICATION Spec
 VIEW View
 ACTION_CONSTRAINT EmitStep
